@@ -17,7 +17,6 @@ use cairo_lang_lowering::db::LoweringGroup;
 use cairo_lang_lowering::LoweringStage;
 use cairo_lang_sierra_generator::canonical_id_replacer::CanonicalReplacer;
 use cairo_lang_sierra_generator::db::SierraGenGroup;
-use cairo_lang_sierra_generator::program_generator::find_all_free_function_ids;
 use cairo_lang_sierra_generator::replace_ids::SierraIdReplacer;
 use cairo_lang_starknet::contract::find_contracts;
 use cairo_lang_starknet_classes::casm_contract_class::CasmContractClass;
@@ -31,6 +30,17 @@ use crate::core::sierra;
 use crate::props::{c08, execs};
 
 pub struct C12;
+
+/// Hand-written projects with shapes the generated programs do not have: mutual recursion (the
+/// gas-withdrawal point of a cycle is chosen by the compiler), explicit implicit precedence with
+/// unlisted implicits, generic traits with several instantiations, closures.
+const TEMPLATES: &[&str] = &[
+    "fn f(n: felt252) -> felt252 {\n    if n == 0 {\n        1\n    } else {\n        g(n - 1) + 1\n    }\n}\nfn g(n: felt252) -> felt252 {\n    if n == 0 {\n        2\n    } else {\n        f(n - 1) * 2\n    }\n}\n",
+    "fn a(n: u32) -> u32 {\n    if n == 0 {\n        0\n    } else {\n        b(n - 1) + c(n - 1)\n    }\n}\nfn b(n: u32) -> u32 {\n    if n == 0 {\n        1\n    } else {\n        c(n - 1) + 1\n    }\n}\nfn c(n: u32) -> u32 {\n    if n == 0 {\n        2\n    } else {\n        a(n - 1) + 2\n    }\n}\nfn main() -> u32 {\n    c(5) + b(4) + a(3)\n}\n",
+    "use core::dict::{Felt252Dict, Felt252DictTrait};\n#[implicit_precedence(core::RangeCheck)]\nfn main(x: felt252) -> felt252 {\n    hash_pair(x, 3) + dict_roundtrip(x) + small(x)\n}\nfn hash_pair(a: felt252, b: felt252) -> felt252 {\n    core::pedersen::pedersen(a, b)\n}\nfn dict_roundtrip(a: felt252) -> felt252 {\n    let mut d: Felt252Dict<felt252> = Default::default();\n    d.insert(a, 5);\n    d.get(a)\n}\nfn small(a: felt252) -> felt252 {\n    let x: u8 = a.try_into().unwrap_or(3);\n    (x / 2).into()\n}\n",
+    "trait Shape<T> {\n    fn area(self: @T) -> u64;\n}\n#[derive(Drop)]\nstruct Sq {\n    s: u64,\n}\n#[derive(Drop)]\nstruct Re {\n    w: u64,\n    h: u64,\n}\nimpl SqShape of Shape<Sq> {\n    fn area(self: @Sq) -> u64 {\n        *self.s * *self.s\n    }\n}\nimpl ReShape of Shape<Re> {\n    fn area(self: @Re) -> u64 {\n        *self.w * *self.h\n    }\n}\nfn total<T, U, +Shape<T>, +Shape<U>>(a: @T, b: @U) -> u64 {\n    a.area() + b.area()\n}\nfn main() -> u64 {\n    let s = Sq { s: 3 };\n    let r = Re { w: 2, h: 5 };\n    total(@s, @r) + total(@r, @s) + total(@s, @s)\n}\n",
+    "fn main(n: u32) -> u32 {\n    let add = |x: u32| x + n;\n    let arr = array![1_u32, 2, 3];\n    let mut acc = 0;\n    for v in arr {\n        acc += add(v);\n    }\n    even(acc) + acc\n}\nfn even(n: u32) -> u32 {\n    if n == 0 {\n        1\n    } else {\n        odd(n - 1)\n    }\n}\nfn odd(n: u32) -> u32 {\n    if n == 0 {\n        0\n    } else {\n        even(n - 1)\n    }\n}\n",
+];
 
 #[derive(Clone, Debug)]
 pub struct History {
@@ -92,15 +102,26 @@ fn shuffled(n: usize, seed: u64) -> Vec<usize> {
 
 /// Per-function queries of the target crate: the share `part` of `parts` of the shuffled prefix.
 fn function_queries(db: &RootDatabase, input: &CrateInput, h: &History, part: usize, parts: usize) {
+    use cairo_lang_defs::db::DefsGroup;
+    use cairo_lang_lowering::ids::ConcreteFunctionWithBodyId;
     let id = cairo::crate_id(db, input);
-    let Ok(fns) = find_all_free_function_ids(db, vec![id]) else { return };
-    let order = shuffled(fns.len(), h.fn_seed);
-    let take = fns.len() * h.fn_quarters / 4;
+    // The definitions (not yet the lowering-level function ids: those are interned below, in the
+    // shuffled order, so that the history really permutes their interning).
+    let mut defs = vec![];
+    for module_id in db.crate_modules(id).iter() {
+        if let Ok(data) = module_id.module_data(db) {
+            for (f, _) in data.free_functions(db).iter() {
+                defs.push(*f);
+            }
+        }
+    }
+    let order = shuffled(defs.len(), h.fn_seed);
+    let take = defs.len() * h.fn_quarters / 4;
     for (k, i) in order.into_iter().take(take).enumerate() {
         if k % parts != part {
             continue;
         }
-        let f = fns[i];
+        let Some(f) = ConcreteFunctionWithBodyId::from_no_generics_free(db, defs[i]) else { continue };
         if (h.fn_seed >> (k % 60)) & 1 == 0 {
             let _ = db.function_with_body_sierra(f);
         } else {
@@ -139,7 +160,48 @@ fn apply_history(db: &RootDatabase, input: &CrateInput, h: &History, snippets: &
     }
 }
 
-fn observe(db: &RootDatabase, input: &CrateInput, threads: usize) -> (Observed, String) {
+/// True iff the program has a call cycle through at least two Sierra functions (mutual recursion,
+/// or a recursive function calling itself from inside a loop, which is a function of its own).
+fn has_multi_function_cycle(p: &cairo_lang_sierra::program::Program) -> bool {
+    use cairo_lang_sierra::program::{GenericArg, Statement};
+    let n = p.funcs.len();
+    let mut starts: Vec<(usize, usize)> = p.funcs.iter().enumerate().map(|(i, f)| (f.entry_point.0, i)).collect();
+    starts.sort();
+    let owner = |stmt: usize| -> Option<usize> { starts.iter().rev().find(|(s, _)| *s <= stmt).map(|(_, i)| *i) };
+    let callee: std::collections::HashMap<u64, usize> = p
+        .libfunc_declarations
+        .iter()
+        .filter(|d| matches!(d.long_id.generic_id.0.as_str(), "function_call" | "coupon_call"))
+        .filter_map(|d| match d.long_id.generic_args.first() {
+            Some(GenericArg::UserFunc(f)) => p.funcs.iter().position(|g| g.id == *f).map(|i| (d.id.id, i)),
+            _ => None,
+        })
+        .collect();
+    let mut adj = vec![std::collections::BTreeSet::new(); n];
+    for (i, st) in p.statements.iter().enumerate() {
+        if let Statement::Invocation(inv) = st {
+            if let (Some(to), Some(from)) = (callee.get(&inv.libfunc_id.id), owner(i)) {
+                adj[from].insert(*to);
+            }
+        }
+    }
+    // Reachability per function (programs here are small).
+    let reach = |from: usize| -> Vec<bool> {
+        let mut seen = vec![false; n];
+        let mut stack: Vec<usize> = adj[from].iter().copied().collect();
+        while let Some(x) = stack.pop() {
+            if !seen[x] {
+                seen[x] = true;
+                stack.extend(adj[x].iter().copied());
+            }
+        }
+        seen
+    };
+    let r: Vec<Vec<bool>> = (0..n).map(reach).collect();
+    (0..n).any(|a| (0..n).any(|b| a != b && r[a][b] && r[b][a]))
+}
+
+fn observe(db: &RootDatabase, input: &CrateInput, threads: usize) -> (Observed, String, bool) {
     let pool = rayon::ThreadPoolBuilder::new().num_threads(threads).build().expect("pool");
     // The database handle is not Sync: the pool works on a snapshot moved into it.
     let snap = db.snapshot();
@@ -167,6 +229,7 @@ fn observe(db: &RootDatabase, input: &CrateInput, threads: usize) -> (Observed, 
                 },
             )
         };
+        let cyc = art.as_ref().map(|a| has_multi_function_cycle(&a.program)).unwrap_or(false);
         let (artifact, casm) = match &art {
             Ok(a) => {
                 let casm = match sierra::pipeline(&a.program, false) {
@@ -185,7 +248,7 @@ fn observe(db: &RootDatabase, input: &CrateInput, threads: usize) -> (Observed, 
             Ok(p) => (CanonicalReplacer::from_program(&p.program).apply(&p.program).to_string(), p.program.to_string()),
             Err(_) => (String::new(), String::new()),
         };
-        (Observed { diagnostics, artifact, canonical, casm }, raw)
+        (Observed { diagnostics, artifact, canonical, casm }, raw, cyc)
     })
 }
 
@@ -210,19 +273,24 @@ pub fn judge_plain(source: &str, settings: &str, h: &History, snippets: &[execs:
     let input = cairo::virtual_crate_input("target", source, settings, None);
     let r = panics::catch(|| {
         let db0 = cairo::new_db(Plugins::Default, None);
-        let (o0, raw0) = observe(&db0, &input, 1);
+        let (o0, raw0, cyc) = observe(&db0, &input, 1);
         drop(db0);
         let db1 = cairo::new_db(Plugins::Default, None);
         apply_history(&db1, &input, h, snippets);
-        let (o1, raw1) = observe(&db1, &input, h.threads);
-        (o0, raw0, o1, raw1)
+        let (o1, raw1, _) = observe(&db1, &input, h.threads);
+        (o0, raw0, o1, raw1, cyc)
     });
-    let (o0, raw0, o1, raw1) = match r {
+    let (o0, raw0, o1, raw1, cyc) = match r {
         Ok(x) => x,
         Err(_) => return Ok((false, false)), // panics are C08 / C09 business
     };
-    if let Some(v) = compare(&o0, &o1) {
-        return Err(v);
+    if let Some((sig, what)) = compare(&o0, &o1) {
+        // Root-cause class of the one known finding: in a call cycle through several functions the
+        // compiler picks the cycle's representative (hence the gas-withdrawal point) by interned id.
+        if cyc && sig != "diagnostics-differs" {
+            return Err((format!("{sig}:program-with-multi-function-call-cycle"), what));
+        }
+        return Err((sig, what));
     }
     Ok((raw0 != raw1 && !raw0.is_empty(), o0.artifact.starts_with("error")))
 }
@@ -327,7 +395,8 @@ impl Prop for C12 {
         "C12"
     }
     fn rule(&self) -> String {
-        "Projects: generated typed programs, e2e snippets and example files - unmutated or with 1-2 token mutations \
+        "Projects: generated typed programs, e2e snippets, example files and five hand-written templates (mutual recursion, \
+         #[implicit_precedence] with unlisted implicits, generic traits with several instantiations, closures) - unmutated or with 1-2 token mutations \
          so that the diagnostics list is non-empty (warnings / errors) - and, in one case of eight, three contracts \
          of the Starknet test crate (crates/cairo-lang-starknet/cairo_level_tests). Each project is compiled in two \
          fresh databases: (plain) directly, in a one-thread rayon pool; (history) in a pool of n in {1,2,4,16} \
@@ -370,7 +439,10 @@ impl Prop for C12 {
                     Err((sig, what)) => Verdict::fail(sig, what, a),
                 };
             }
-            let (origin, mut source, settings) = if snippets.is_empty() || ch.chance(1, 2) {
+            let (origin, mut source, settings) = if ch.chance(1, 5) {
+                let i = ch.below(TEMPLATES.len());
+                (format!("template#{i}"), TEMPLATES[i].to_string(), cairo::SETTINGS_2024_07)
+            } else if snippets.is_empty() || ch.chance(1, 2) {
                 let c = execs::pick_case(ch, &[], 10, 0);
                 ("generated".to_string(), c.source, cairo::SETTINGS_2024_07)
             } else {
